@@ -28,7 +28,11 @@ RULE = ("Hypothesis-generated cases for all 18 classes, three kinds. (a) inbound
         "synced children through their API); nothing may change. (c) cross-assignment: a synced root "
         "or nested child is assigned into another position of the same or of another collection (same "
         "or different family/backend); then source and destination are mutated in turn; they must "
-        "evolve independently and both persist. Non-trivial = argument/result with >=2 nested "
+        "evolve independently and both persist; (d) 'selfref': update()/reset()/item, slice and extend "
+        "calls whose argument is built from the collection's OWN nested children (swap, rotation, "
+        "duplication) - values as of the call, independent copies afterwards. Outbound cases also run "
+        "inside buffered contexts, on documents that exist only in memory, with empty containers, and "
+        "after a history in which a scalar entry became a container through update/reset/reload. Non-trivial = argument/result with >=2 nested "
         "container levels; distinct by (class, kind, entry/result kind, target, shape).")
 ASSUMPTIONS = [
     "for pop/popitem/del the statement only requires that mutating the removed value changes nothing",
@@ -219,6 +223,26 @@ def case_outbound(c):
         model = copy.deepcopy(doc)
         mt = get_path(model, tpath)
         tk = "dict" if isinstance(mt, dict) else "list"
+        prep = c.get("prep")
+        if prep == "other" and mode != "plain":
+            prep = "update"     # (an unbuffered second writer on a buffered file is C07's subject)
+        if prep and tk == "dict" and mode != "absent":
+            # history first: an existing SCALAR entry of the target becomes a container through a
+            # bulk path (update / reset / a reload after another object wrote it)
+            sk = [k for k, v in mt.items() if not isinstance(v, (dict, list))]
+            if sk:
+                k_ = sk[0]
+                newc = {"n": [1, {"m": 2}]}
+                if prep == "update":
+                    t.update({k_: copy.deepcopy(newc)})
+                elif prep == "reset":
+                    t.reset({**copy.deepcopy(mt), k_: copy.deepcopy(newc)})
+                else:
+                    o2 = res.make(ci)
+                    for k in tpath:
+                        o2 = o2[k]
+                    o2[k_] = copy.deepcopy(newc)
+                mt[k_] = copy.deepcopy(newc)
         keys = list(mt.keys()) if tk == "dict" else list(range(len(mt)))
         k0 = keys[c.get("ki", 0) % len(keys)] if keys else None
         must_be_plain = False
@@ -448,6 +472,66 @@ def case_repeated(c):
         shutil.rmtree(d, ignore_errors=True)
 
 
+def case_selfref(c):
+    """The argument is built from the collection's OWN nested children (a swap, a duplication, a
+    rotation): like on built-in containers the values are taken as they were when the call was
+    made, each position ends up with an independent copy, and later changes to one position leave
+    the others alone."""
+    ci = CLASSES[c["class"]]
+    d = wm.case_dir()
+    reset_class_state()
+    try:
+        kids = [{"n": 0, "t": [0]}, {"n": 1, "t": [1]}, {"n": 2, "t": [2]}]
+        perm = c["perm"]                    # indices of the old children, e.g. [1, 0, 0]
+        via = c["via"]
+        if ci.kind == "dict":
+            keys = ["a", "b", "c"]
+            doc = {k: copy.deepcopy(v) for k, v in zip(keys, kids)}
+            res, obj = _setup(ci, d, doc)
+            model = copy.deepcopy(doc)
+            new = {keys[i]: obj[keys[p_]] for i, p_ in enumerate(perm)}
+            mnew = {keys[i]: copy.deepcopy(model[keys[p_]]) for i, p_ in enumerate(perm)}
+            if via == "update":
+                obj.update(new)
+                model.update(mnew)
+            elif via == "reset":
+                obj.reset(new)
+                model = mnew
+            else:
+                for k_, v_ in new.items():
+                    obj[k_] = v_            # the values were taken before the first assignment
+                model.update(mnew)
+            first = keys[0]
+        else:
+            doc = copy.deepcopy(kids)
+            res, obj = _setup(ci, d, doc)
+            model = copy.deepcopy(doc)
+            new = [obj[p_] for p_ in perm]
+            mnew = [copy.deepcopy(model[p_]) for p_ in perm]
+            if via == "reset":
+                obj.reset(new)
+                model = mnew
+            elif via == "slice":
+                obj[0:len(perm)] = new
+                model[0:len(perm)] = mnew
+            else:
+                obj.extend(new)
+                model.extend(mnew)
+            first = 0
+        _same("selfref_values", obj(), model, via=via, perm=perm)
+        _same("selfref_backend", res.read(), model, via=via, perm=perm)
+        # positions are independent afterwards
+        tgt = obj[first]
+        tgt["__one__"] = 1
+        model[first]["__one__"] = 1
+        _same("selfref_positions_alias_each_other", obj(), model, via=via, perm=perm)
+        _same("selfref_fresh", res.make(ci)(), model, via=via, perm=perm)
+        return True
+    finally:
+        reset_class_state()
+        shutil.rmtree(d, ignore_errors=True)
+
+
 def _has_dot(v):
     if isinstance(v, dict):
         return any("." in k or _has_dot(x) for k, x in v.items())
@@ -465,6 +549,8 @@ def run_case(c):
         return case_outbound(c)
     if k == "repeated":
         return case_repeated(c)
+    if k == "selfref":
+        return case_selfref(c)
     return case_cross(c)
 
 
@@ -492,7 +578,17 @@ def run_shard(spec, seed, tier, active):
 
     def one(data):
         draw = data.draw
-        kind = draw(st.sampled_from(["inbound", "inbound", "outbound", "outbound", "cross", "repeated"]))
+        kind = draw(st.sampled_from(["inbound", "inbound", "outbound", "outbound", "cross", "repeated", "selfref"]))
+        if kind == "selfref":
+            n_ = draw(st.integers(2, 3))
+            c = {"kind": kind, "class": ci.name, "perm": draw(st.lists(st.integers(0, 2), min_size=n_, max_size=n_)),
+                 "via": draw(st.sampled_from(["update", "reset", "setitem"] if ci.kind == "dict" else ["reset", "slice", "extend"]))}
+            try:
+                run_case(c)
+            except Mismatch as mm:
+                raise CaseFailure(dict(c, property=ID, engine="c16"), mm.describe())
+            acc.case([h64(ci.name, kind, c["via"], c["perm"])], c, {f"kind={kind}": 1, f"selfref.{c['via']}": 1})
+            return
         if kind == "repeated":
             inner = draw(st.one_of(dom.lists(3), dom.dicts(3)))
             c = {"kind": kind, "class": ci.name, "inner": enc(inner),
@@ -526,7 +622,7 @@ def run_shard(spec, seed, tier, active):
             mode = draw(st.sampled_from(OUT_MODES))
             c = {"kind": kind, "class": ci.name, "doc": enc(doc), "out": draw(st.sampled_from(OUT_KINDS)),
                  "path": enc(list(draw(st.sampled_from(paths)))), "ki": draw(st.integers(0, 5)),
-                 "mode": mode}
+                 "mode": mode, "prep": draw(st.sampled_from([None, None, "update", "reset", "other"]))}
             shape = (c["out"], len(dec(c["path"])), depth(doc), mode if (ci.buffered or mode == "absent") else "plain")
             nt = depth(doc) >= 2
         else:
